@@ -278,7 +278,7 @@ var faultClasses = []string{"unknown-field", "unknown-fragment", "unknown-argume
 	"selection-on-leaf", "undefined-variable", "unused-variable", "variable-type-mismatch", "unused-fragment",
 	"duplicate-operation", "anonymous-operation", "unknown-variable-type", "missing-selection",
 	"keyword-variable", "bogus-directive-argument", "omitempty-on-field", "keyword-operation-name",
-	"malformed-directive", "directive-wrong-value-type"}
+	"malformed-directive", "directive-wrong-value-type", "duplicate-fragment"}
 
 // insertion points: indices of lines (within Text) that end with "{" (a selection set opens)
 func openLines(text string) []int {
@@ -440,6 +440,16 @@ func injectFault(defs []gen.Def, class string, objectTypes []string, r *proto.Rn
 		}
 		f.Def, f.Line = len(out)-1, 1
 		f.AltLine = -1 // the first definition is acceptable too (checked separately)
+	case "duplicate-fragment":
+		// a second definition of a fragment's name — a verbatim copy, so the repeated name is the ONLY fault
+		// (UniqueFragmentNames; seeded change C05-r11 kept the first definition and dropped the rest before validating)
+		di := pickDef(func(d gen.Def) bool { return d.Kind == "fragment" })
+		if di < 0 {
+			return nil, f, false
+		}
+		out = append(out, out[di])
+		f.Def, f.Line = len(out)-1, 1
+		f.AltLine = -1
 	case "anonymous-operation":
 		out = append(out, gen.Def{Kind: "query", Name: "", Text: "query {\n  __typename\n}\n"})
 		f.Def, f.Line = len(out)-1, 1
